@@ -89,6 +89,7 @@ impl super::Protocol for Protocol {
     }
 
     async fn write(&self, relpath: &str, content: &[u8], write_mode: WriteMode) -> Result<()> {
+        use tokio::io::AsyncWriteExt;
         let full_path = self.full_path(relpath);
         let mut options = tokio::fs::OpenOptions::new();
         options.write(true);
@@ -100,8 +101,35 @@ impl super::Protocol for Protocol {
                 options.create(true).truncate(true);
             }
         }
-        if let Err(err) = tokio::fs::write(&full_path, content).await {
+        let mut file = match options.open(&full_path).await {
+            Ok(file) => file,
+            Err(err)
+                if write_mode == WriteMode::CreateNew
+                    && err.kind() == io::ErrorKind::AlreadyExists
+                    && is_empty_file(&full_path).await =>
+            {
+                // A zero-length file is what an interrupted write leaves behind: it holds
+                // nothing, and it may be completed.
+                tokio::fs::OpenOptions::new()
+                    .write(true)
+                    .truncate(true)
+                    .open(&full_path)
+                    .await
+                    .map_err(|err| super::Error::io_error(&full_path, err))?
+            }
+            Err(err) => {
+                // Nothing was created, so in particular an existing file is left alone.
+                error!("Failed to open {full_path:?} for writing: {err:?}");
+                return Err(super::Error::io_error(&full_path, err));
+            }
+        };
+        let written = match file.write_all(content).await {
+            Ok(()) => file.flush().await,
+            Err(err) => Err(err),
+        };
+        if let Err(err) = written {
             error!("Failed to write {full_path:?}: {err:?}");
+            drop(file);
             if let Err(err2) = tokio::fs::remove_file(&full_path).await {
                 error!("Failed to remove {full_path:?}: {err2:?}");
             }
@@ -180,6 +208,13 @@ impl super::Protocol for Protocol {
     fn local_path(&self) -> Option<PathBuf> {
         Some(self.path.clone())
     }
+}
+
+/// True if the path is an existing regular file of length zero.
+async fn is_empty_file(path: &Path) -> bool {
+    tokio::fs::metadata(path)
+        .await
+        .is_ok_and(|m| m.is_file() && m.len() == 0)
 }
 
 async fn collect_tokio_dir_entry(dir_entry: tokio::fs::DirEntry) -> Option<DirEntry> {
